@@ -820,7 +820,41 @@ pub fn replace_stack(cfg: GenCfg) -> BoxedStrategy<Spec> {
     .boxed()
 }
 
+/// Trees: seven in eight are recursive trees of bounded depth (`tree_rec`), one in eight is a *tower* - a chain of 4-8
+/// wrappers of differing kinds over a small base, i.e. the depth and the stacking of composite types that the
+/// recursive generator (16 nodes wanted, depth <= 3 or 4) produces only rarely.
 pub fn tree(cfg: GenCfg) -> BoxedStrategy<Spec> {
+  prop_oneof![7 => tree_rec(cfg), 1 => tower(cfg)].boxed()
+}
+
+/// A chain of 4-8 layers over one leaf or a two-leaf ConcatSource; every layer is a ReplaceSource (0-3 replacements
+/// concretised against the text below it), a CachedSource, a Box, or a ConcatSource holding the chain alone, before,
+/// behind or between small sibling leaves.
+pub fn tower(cfg: GenCfg) -> BoxedStrategy<Spec> {
+  let small = GenCfg { max_tokens: cfg.max_tokens.min(5), ..cfg };
+  (vec(leaf(small), 1..=2), vec((0u8..9u8, repls_for(cfg, 3), leaf(small), 0u8..5u8), 4..=8))
+    .prop_map(move |(base, layers)| {
+      let mut s = if base.len() == 1 { base.into_iter().next().unwrap() } else { Spec::Concat { how: 0, children: base } };
+      for (kind, (pool, abs), sib, how) in layers {
+        s = match kind {
+          0 | 1 | 2 if cfg.replace => {
+            let t = model_text(&s);
+            let repls = concretize_repls(&t, &pool, &abs, cfg.huge_positions);
+            Spec::Replace { inner: Box::new(s), repls }
+          }
+          3 | 4 if cfg.cached => Spec::Cached(Box::new(s)),
+          5 => Spec::Boxed(Box::new(s)),
+          6 => Spec::Concat { how, children: vec![s, sib] },
+          7 => Spec::Concat { how, children: vec![sib, s] },
+          _ => Spec::Concat { how, children: vec![s] },
+        };
+      }
+      normalize(s, cfg)
+    })
+    .boxed()
+}
+
+pub fn tree_rec(cfg: GenCfg) -> BoxedStrategy<Spec> {
   let l = leaf(cfg);
   l.prop_recursive(cfg.depth, 16, cfg.max_children as u32, move |inner| {
     let mut alts: Vec<(u32, BoxedStrategy<Spec>)> = vec![(
